@@ -119,3 +119,19 @@ def c10(run, replay):
              "and HTTP body sizes around each limit x padding kind; distinct = distinct abstract rows",
         sig=lambda t: "row %s" % json.dumps(t["row"], sort_keys=True),
         mc_timeout=1200, trace_timeout=1800, harness_timeout=3000)
+
+
+# --------------------------------------------------------------------------------------------- C11
+@check("C11")
+def c11(run, replay):
+    run.assumptions += [
+        "error classes: nil, unregistered, registered plain (value/pointer form), marshalable (pointer form; a value-form type with a "
+        "pointer-receiver UnmarshalJSON is not a marshalable value in Go and travels as a plain type), codec, and the four failing "
+        "conversions; tables: same code both sides, client only, server only, disjoint codes, none; x {error, (value,error)} x {http, ws, custom}",
+        "for registered plain types only the dynamic type is compared (the library transfers no content for them by design)",
+        "messages are seeded valid-UTF-8 strings incl. empty, quotes, HTML-significant and control characters",
+    ]
+    vp.table_check(
+        run, "ErrCodecMC", "ErrCodecTrace", "c11",
+        rule="all 495 rows of ErrCodec.tla, each run through a real client/server pair with seeded messages; distinct = distinct abstract rows",
+        sig=lambda t: "row %s" % json.dumps(t["row"], sort_keys=True))
